@@ -27,6 +27,16 @@ claim("C13", "exploration",
       "sequences for larger n.  Exhaustive within those bounds, sampled beyond them.",
       TB + " Members are stubs exposing drift_state only.", "DESIGN.md 4 (C13)")
 
+claim("C05", "exploration",
+      "runtime monitoring: executable-specification shadow models stepped in lock-step with the real detectors after "
+      "every sample; complete enumeration of all 2^n outcome sequences plus random long sequences",
+      "All 2^14 (2^17 thorough) outcome sequences under 13 (21) small-threshold configurations of DDM/EDDM/STEPD and "
+      "hundreds of long random piecewise-stationary sequences are run through the real detectors; drift_state, "
+      "retraining_recs and STEPD's accuracies are compared with an independent executable specification after every "
+      "sample, exact ties decisive, several epochs per history.  Exhaustive for the enumerated sub-space, sampled beyond.",
+      TB + " Specification details the docs leave open follow the repository-pinned behaviour (DESIGN.md 3.3).",
+      "DESIGN.md 4 (C05)")
+
 NOT_YET = "check not built yet in this revision of /verif (planned: see DESIGN.md section 4); nothing is claimed for it"
 
 
